@@ -77,7 +77,7 @@ def ref_R_of_slot(kind, p):
     raise ValueError(kind)
 
 
-def euler_in_band(R, margin=1.5e-3):
+def euler_in_band(R, margin=1.0e-3 * (1 + 1e-7)):
     """is the 3-2-1 pitch of R within `margin` of +-pi/2 (the documented gimbal band is 1e-3)"""
     s = -R[2, 0]
     if not math.isfinite(s):
